@@ -470,7 +470,9 @@ def main():
     repo, gen = sys.argv[1], sys.argv[2]
     p_mod = os.path.join(repo, "rs/anda_db_server/src/api/mod.rs")
     p_lib = os.path.join(repo, "rs/anda_db_server/src/lib.rs")
-    for p in (p_mod, p_lib):
+    p_err = os.path.join(repo, "rs/anda_db_server/src/error.rs")
+    p_auth = os.path.join(repo, "rs/anda_db_server/src/auth.rs")
+    for p in (p_mod, p_lib, p_err, p_auth):
         if not os.path.exists(p):
             die(f"missing source file {p}")
     mod = cut_test_module(strip_comments(open(p_mod).read()))
@@ -658,6 +660,26 @@ def main():
         die("bearer_token: shape not recognised")
     bearer_prefix = bm[0]
 
+    # error.rs: the one rejection; auth.rs: how keys are compared and what `authorize` can answer
+    err = cut_test_module(strip_comments(open(p_err).read()))
+    auth = cut_test_module(strip_comments(open(p_auth).read()))
+    ubody, _ = fn_body(err, "unauthorized")
+    um = re.findall(r"StatusCode::(\w+)", ubody)
+    ustr = re.findall(r'"([^"\\]*)"', ubody)
+    status_of = {"UNAUTHORIZED": 401, "FORBIDDEN": 403, "NOT_FOUND": 404, "BAD_REQUEST": 400, "CONFLICT": 409, "OK": 200}
+    if len(um) != 1 or um[0] not in status_of or len(ustr) != 2:
+        die("error.rs: `unauthorized()` is not one StatusCode and two string literals (code, message)")
+    unauth_status, unauth_code, unauth_msg = status_of[um[0]], ustr[0], ustr[1]
+    vbody, _ = fn_body(impl_block(auth, "ApiKeyHash"), "verify")
+    verify_ct = bool(re.search(r"\bconstant_time_eq\s*\(", vbody)) and bool(re.search(r"\bfrom_key\s*\(", vbody))
+    abody = inlined(auth, "authorize")
+    dummy_burned = bool(re.search(r"\bTIMING_DUMMY\s*\.\s*verify\s*\(", abody)) and "black_box" in abody
+    answers = set(re.findall(r"\bApiError::(\w+)\s*\(", abody))
+    if not answers:
+        die("auth.rs: authorize constructs no ApiError at all")
+    only_unauthorized = answers == {"unauthorized"}
+    principals_answered = sorted(set(re.findall(r"\bPrincipal::(\w+)", abody)))
+
     # build_router: ordered chain of builder calls
     rb, _ = fn_body(lib, "build_router")
     chain = []
@@ -766,6 +788,17 @@ def main():
     w(f"def scopeCapture : String := {lean_str(scope_capture)}")
     w(f"def bearerPrefix : String := {lean_str(bearer_prefix)}")
     w("")
+    w("/-- `ApiError::unauthorized()` (error.rs): status, code, message of the one rejection -/")
+    w(f"def unauthorizedStatus : Nat := {unauth_status}")
+    w(f"def unauthorizedCode : String := {lean_str(unauth_code)}")
+    w(f"def unauthorizedMessage : String := {lean_str(unauth_msg)}")
+    w("/-- `ApiKeyHash::verify` hashes the presented key and compares digests with `constant_time_eq` -/")
+    w(f"def verifyIsConstantTime : Bool := {lean_bool(verify_ct)}")
+    w("/-- `authorize` (helpers inlined) burns `TIMING_DUMMY.verify(..)` behind `black_box` -/")
+    w(f"def timingDummyBurned : Bool := {lean_bool(dummy_burned)}")
+    w("/-- every `ApiError` that `authorize` (helpers inlined) constructs is `unauthorized()` -/")
+    w(f"def authorizeOnlyErrorIsUnauthorized : Bool := {lean_bool(only_unauthorized)}")
+    lst("authorizePrincipals", "String", [lean_str(x) for x in principals_answered])
     w("/-- `build_router`: builder calls in order (a `route_layer` only covers routes added before it). -/")
     lst("routerChain", "(String × String)", [f"({lean_str(k)}, {lean_str(v)})" for k, v in chain])
 
